@@ -13,7 +13,7 @@ from . import ind
 PID = 'C15'
 THEOREMS = ['C15_rsi_in_range', 'C15_willr_in_range', 'C15_stoch_k_in_range', 'C15_donchian_ordered_and_enclosing', 'C15_atr_nonneg', 'C15_var_nonneg',
             'C15_sma_homogeneous', 'C15_ema_homogeneous', 'C15_wma_homogeneous', 'C15_trima_homogeneous', 'C15_wilders_homogeneous', 'C15_dema_homogeneous',
-            'C15_tema_homogeneous', 'C15_macd_homogeneous', 'C15_mfi_in_range', 'C15_keltner_ordered']
+            'C15_tema_homogeneous', 'C15_macd_homogeneous', 'C15_mfi_in_range', 'C15_keltner_ordered', 'C15_atr_homogeneous']
 MA_SELECTOR = {0: 'sma', 1: 'ema', 2: 'wma', 3: 'dema', 4: 'tema', 5: 'trima', 6: 'kama', 9: 'fwma', 10: 'hma', 11: 'linearreg', 12: 'wilders', 13: 'sinwma', 14: 'supersmoother',
                15: 'supersmoother_3_pole', 16: 'gauss', 17: 'high_pass', 18: 'high_pass_2_pole', 20: 'jma', 21: 'reflex', 22: 'trendflex', 23: 'smma', 25: 'pwma', 26: 'swma',
                27: 'alma', 30: 'nma', 31: 'edcf', 33: 'maaq', 34: 'srwma', 35: 'sqwma', 36: 'vpwma', 37: 'cwma', 38: 'jsa', 39: 'epma'}
